@@ -710,6 +710,10 @@ impl JTracker {
         // ids of the batch are read from the book tail (Jura does not show them on admission)
         if !tail_matches {
             ctx.fail(
+                "C17", "admitted-not-in-book", "tick",
+                format!("the {} orders reported as admitted are not the tail of the book after the tick (book tail ids {:?})", n_adm, tail.iter().map(|o| o.order_id).collect::<Vec<_>>()),
+            );
+            ctx.fail(
                 "C03", "book-conservation", "tick",
                 format!(
                     "the {} admitted orders are not the tail of the book after the tick: tail [{}] admitted [{}]",
